@@ -115,6 +115,12 @@ class ContinuousCarver(BaseCarver):
             len(y_values) > 2
         ), " - [ContinuousCarver] provided y is binary, consider using BinaryCarver instead."
 
+        # continuous target of the dev sample, checking values
+        if y_dev is not None:
+            assert str not in y_dev.apply(type).unique(), (
+                " - [ContinuousCarver] y_dev must be a continuous Series (int or float, not object)"
+            )
+
         return x_copy, x_dev_copy
 
     def _aggregator(
